@@ -116,6 +116,9 @@ type Gen struct {
 	// parameter names of the interface-method contract this implementation is checked against
 	// (name 0 = the interface value holding the receiver); nil otherwise
 	ifaceAlias []string
+	curInstr   ssa.Instruction                       // the instruction being translated
+	privMaps   map[*ssa.MakeMap][]ssa.Instruction    // maps made here whose only other uses are the listed escaping ones
+	blockReach map[*ssa.BasicBlock]map[*ssa.BasicBlock]bool // CFG reachability (by one or more edges)
 	pathVarType map[string]types.Type // `pathvar` declarations (non-Boolean path variables)
 	implIfaces []types.Type // interface types some value was type-asserted to (see implFacts)
 
@@ -700,11 +703,139 @@ func (g *Gen) newBase(kind int) *Base {
 
 // havocAll forgets every heap component except non-escaping local cells.
 func (g *Gen) havocAll() {
+	old := g.st
 	b := g.newBase(bHavoc)
 	b.keep = g.st
 	g.st = &State{m: map[string]string{}, base: b}
 	if g.cur != nil {
 		g.writtenAll[g.cur] = true
+	}
+	g.keepPrivateMaps(old)
+}
+
+// analyzePrivateMaps: a map made by this function (MakeMap) whose uses are only updates of it,
+// lookups in it, len/range of it — and the listed ESCAPING uses (anything else: an argument of a
+// call, a store, a phi, a closure binding, a conversion). Until an escaping use has been
+// executed nobody else holds a reference to the map, so no call can change it.
+func (g *Gen) analyzePrivateMaps() {
+	g.privMaps = map[*ssa.MakeMap][]ssa.Instruction{}
+	for _, b := range g.fn.Blocks {
+		for _, in := range b.Instrs {
+			mm, ok := in.(*ssa.MakeMap)
+			if !ok || mm.Referrers() == nil {
+				continue
+			}
+			var esc []ssa.Instruction
+			for _, u := range *mm.Referrers() {
+				switch u := u.(type) {
+				case *ssa.MapUpdate:
+					if u.Map == ssa.Value(mm) && u.Key != ssa.Value(mm) && u.Value != ssa.Value(mm) {
+						continue
+					}
+				case *ssa.Lookup:
+					if u.X == ssa.Value(mm) && u.Index != ssa.Value(mm) {
+						continue
+					}
+				case *ssa.DebugRef:
+					continue
+				case *ssa.Range:
+					continue
+				case *ssa.Call:
+					if bi, ok := u.Call.Value.(*ssa.Builtin); ok && (bi.Name() == "len" || bi.Name() == "delete") {
+						continue
+					}
+				}
+				esc = append(esc, u)
+			}
+			g.privMaps[mm] = esc
+		}
+	}
+	// reachability between blocks
+	g.blockReach = map[*ssa.BasicBlock]map[*ssa.BasicBlock]bool{}
+	for _, b := range g.fn.Blocks {
+		seen := map[*ssa.BasicBlock]bool{}
+		stack := append([]*ssa.BasicBlock{}, b.Succs...)
+		for len(stack) > 0 {
+			x := stack[len(stack)-1]
+			stack = stack[:len(stack)-1]
+			if seen[x] {
+				continue
+			}
+			seen[x] = true
+			stack = append(stack, x.Succs...)
+		}
+		g.blockReach[b] = seen
+	}
+}
+
+// mayPrecede: can instruction u have been executed when execution is at instruction c?
+func (g *Gen) mayPrecede(u, c ssa.Instruction) bool {
+	ub, cb := u.Block(), c.Block()
+	if ub == nil || cb == nil {
+		return true
+	}
+	if g.blockReach[ub][cb] {
+		return true
+	}
+	if ub == cb {
+		for _, in := range ub.Instrs {
+			if in == u {
+				return true // u comes first (or is c itself: the call that receives the map)
+			}
+			if in == c {
+				return false
+			}
+		}
+	}
+	return false
+}
+
+// keepPrivateMaps: after a havoc, a private map that cannot have escaped yet is what it was.
+func (g *Gen) keepPrivateMaps(old *State) {
+	if g.curInstr == nil || g.privMaps == nil {
+		return
+	}
+	for mm, esc := range g.privMaps {
+		id, defined := g.vals[mm]
+		if !defined || mm.Block() == nil || !(mm.Block() == g.curInstr.Block() || mm.Block().Dominates(g.curInstr.Block())) {
+			continue
+		}
+		escaped := false
+		for _, u := range esc {
+			if u == g.curInstr {
+				// the havocking call itself receives the map: from here on it is shared
+				escaped = true
+				break
+			}
+			if g.mayPrecede(u, g.curInstr) {
+				escaped = true
+				break
+			}
+		}
+		if escaped {
+			continue
+		}
+		if mm.Block() == g.curInstr.Block() {
+			// made later in this block than the havocking instruction? then not yet alive
+			after := false
+			for _, in := range mm.Block().Instrs {
+				if in == g.curInstr {
+					after = true
+					break
+				}
+				if in == ssa.Instruction(mm) {
+					break
+				}
+			}
+			if after {
+				continue
+			}
+		}
+		dk, vk, lk := g.mapKeys(mm.Type())
+		for _, k := range []string{dk, vk, lk} {
+			g.assume(app("=", app("select", g.get(g.st, k), id), app("select", g.get(old, k), id)))
+		}
+		g.abstracted["private-map-kept"]++
 	}
 }
 
@@ -1012,6 +1143,7 @@ func (g *Gen) run() {
 		return
 	}
 	g.analyzeCFG()
+	g.analyzePrivateMaps()
 	g.pass = 1
 	g.translate()
 	// modsets from pass 1
@@ -1226,8 +1358,10 @@ func (g *Gen) translate() {
 			if _, ok := in.(*ssa.Phi); ok {
 				continue
 			}
+			g.curInstr = in
 			g.instr(in)
 		}
+		g.curInstr = nil
 		g.out[b] = g.st
 		// back edges out of b: invariant preservation
 		for _, s := range b.Succs {
